@@ -168,6 +168,8 @@ func checkC13(p *Program, r *Result) {
 	// ---- C13.e: the compressor's output buffer is only looked at after the compressor was closed (flush). zstd
 	// compresses blocks on background goroutines; the amount already emitted into the buffer at any earlier moment
 	// depends on GOMAXPROCS and scheduling.
+	r.rule("C13.m", "Writer methods do not modify or reorder the records they are handed", 1)
+	checkWriterDoesNotMutateInputs(p, r, "C13.m")
 	r.rule("C13.e", "compressor output is only observed after Close", 1)
 	nObs, nBad := 0, 0
 	for _, fn := range sortedFuncs(scope) {
